@@ -9,7 +9,40 @@ def showArm (a : ArmN) : String :=
 def showField (f : FieldN) : String :=
   s!"{convNames.getD f.conv "?"} :: {name f.ty}.{name f.field} <- {f.chain.map name}"
 
+def str (n : List Nat) : String := String.ofList (n.map Char.ofNat)
+
+def showStmt (s : Dnp3.Gen.FfiHandler.Stmt) : String :=
+  s!"[kind {s.kind} place {str s.place} binder {str s.binder} ctor {str s.ctor} args {s.args.map str}]"
+
+open Dnp3.Gen.FfiHandler Dnp3.FfiHandler in
+/-- master-side measurement path (Gen/FfiHandler.lean): rows that violate the predicates of Model/FfiHandler.lean -/
+def handlerRows : IO Unit := do
+  for m in methods do
+    if !(MethodNamesake methodCfg attrArms.length m) then
+      IO.println s!"ROW method-not-namesake :: impl ReadHandler for ffi::ReadHandler :: fn {str m.name} calls ffi::ReadHandler::{str m.callee}({m.args.map str}) x{m.calls}, adapter {str m.iterTy}::new({str m.iterSrc}), info = {str m.infoInit}"
+  if !(AdaptersUsedOnce octetIt methods iterators) then
+    IO.println "TABLE adapters-not-used-once :: an iterator adapter is built by no method or by several (handler_adapters_used_once)"
+  for i in iterators do
+    if !(IterInstNamesake methodCfg.sIterator (c!"IteratorNext") (c!"ffi::") i) then
+      IO.println s!"ROW iterator-instance-not-namesake :: implement_iterator!({str i.itName}, {str i.func}, {str i.libTy}, {str i.ffiTy})"
+    if !(CtorMatches macroCfg ctors i) then
+      IO.println s!"ROW constructor-parameters :: {str i.ffiTy}::new does not take (idx: u16, value: {str i.libTy})"
+  if !(MacroFeedsNamesake macroCfg) then
+    IO.println s!"ROW macro-next-crossed :: implement_iterator: item {macroItem.map str}, |({macroNextPattern.map str})| {str macroNextCtor}({macroNextArgs.map str}) -> {str macroNextTarget}"
+  if macroFnSteps != nextSteps then
+    IO.println s!"ROW exported-next-steps :: implement_iterator: {macroFnSteps.map str}"
+  if octetFnSteps != nextSteps then
+    IO.println s!"ROW exported-next-steps :: octet_string_iterator_next: {octetFnSteps.map str}"
+  if !(FreshByteIterator (c!"crate::ByteIterator::new") (c!"ffi::OctetString::new") (c!"self.next") octetNextPattern octetNextSome) then
+    IO.println s!"ROW octet-string-byte-iterator-not-fresh :: OctetStringIterator::next, branch Some(({octetNextPattern.map str})): {octetNextSome.map showStmt} -- failing input: one header with two or more octet strings, e.g. `octet_string Group110(3) Range8 0 0 ; i 7 010203 ; i 8 040506 ; end 2` (engine ffimeas)"
+  if !(ExhaustedClears (c!"self.next") octetNextElse) then
+    IO.println s!"ROW octet-string-exhausted-branch :: OctetStringIterator::next, else branch: {octetNextElse.map showStmt}"
+  for a in attrArms do
+    if !(AttrArmNamesake attrCfg a) then
+      IO.println s!"ROW attr-arm-not-namesake :: FfiAttrValue::{str a.variant}({a.binders.map str}) => ffi::ReadHandler::{str a.callee}({a.args.map str}) [e = {str a.enumInit}; value from {a.valueRoots.map str}]"
+
 def main : IO Unit := do
+  handlerRows
   for a in armsN do
     if !isD22 a then
       if !(ArmNamesake renames a) then
